@@ -135,6 +135,8 @@ func genUP4Sess(t *rapid.T, idx, peer int, alloc bool, precWide bool) (model.Op,
 		}
 		op.PDRs = append(op.PDRs, up, dn)
 	}
+	wireOrder(t, op.PDRs, op.FARs, op.QERs)
+	g.dlFAR = op.FARs[1]
 	g.pdrs = op.PDRs
 	return op, g
 }
@@ -158,7 +160,7 @@ func genC04(ev *Ev) func(t *rapid.T) model.Case {
 					liveIdx = append(liveIdx, k)
 				}
 			}
-			switch rapid.SampledFrom([]string{"est", "est", "updfar", "updfar", "updfar", "del", "updqer"}).Draw(t, "k") {
+			switch rapid.SampledFrom([]string{"est", "est", "updfar", "updfar", "updfar", "del", "updqer", "updpdr"}).Draw(t, "k") {
 			case "est":
 				if len(liveIdx) >= 4 {
 					continue
@@ -174,6 +176,28 @@ func genC04(ev *Ev) func(t *rapid.T) model.Case {
 				nf := genUP4DLFAR(t, 2)
 				gs[si].dlFAR = nf
 				ops = append(ops, model.Op{Kind: "mod", Peer: gs[si].peer, Seq: seq, Sess: si, UpdFARs: []model.FAR{nf}, Note: "updfar"})
+			case "updpdr":
+				// an Update PDR that re-states one of the session's PDRs (rules whose F-TEID or UE address the UP
+				// chose cannot be re-stated open-loop)
+				if len(liveIdx) == 0 {
+					continue
+				}
+				si := liveIdx[rapid.IntRange(0, len(liveIdx)-1).Draw(t, "si")]
+				var cand []model.PDR
+				alloc := false
+				for _, pd := range gs[si].pdrs {
+					alloc = alloc || pd.UEAlloc
+				}
+				for _, pd := range gs[si].pdrs {
+					if !pd.Choose && !alloc {
+						cand = append(cand, pd)
+					}
+				}
+				if len(cand) == 0 {
+					continue
+				}
+				pd := cand[rapid.IntRange(0, len(cand)-1).Draw(t, "pdri")]
+				ops = append(ops, model.Op{Kind: "mod", Peer: gs[si].peer, Seq: seq, Sess: si, UpdPDRs: []model.PDR{pd}, Note: "updpdr"})
 			case "updqer":
 				if len(liveIdx) == 0 || excluded("up4UpdateQER") {
 					if excluded("up4UpdateQER") {
